@@ -98,7 +98,7 @@ class StubContext:
         return self.made
 
 
-def close(path: str, Kmax: int = 8, susp: int = 1, two_cancels: bool = False, busy: bool = False, exclude: list = ()):
+def close(path: str, Kmax: int = 8, susp: int = 1, two_cancels: bool = False, busy: bool = False, exclude: list = (), peer_answered=None):
     """busy=True (paths serverapi / aclient, the objects documented as not requiring task synchronization): another task is inside
     send_packet() - the peer does not read for a solver-chosen number of iterations - when the close starts, so the close first has
     to wait for the send lock.  exclude=["close_lockwait"]: skip the schedules covered by the open known findings F-C14-lockwait-*
@@ -164,7 +164,7 @@ def close(path: str, Kmax: int = 8, susp: int = 1, two_cancels: bool = False, bu
                 rbio, wbio = StubBIO(), StubBIO()
                 # the closing handshake either never completes (silent peer) or completes at once (close_notify already received);
                 # the shutdown timeout is generous or already expired when the close starts (shutdown_timeout=0)
-                answered = S.bool("peer_answered")
+                answered = S.bool("peer_answered") if peer_answered is None else peer_answered
                 sh_timeout = S.pick([5.0, 0.0], "shutdown_timeout")
                 obj = AsyncTLSStreamTransport(_transport=a, _standard_compatible=True, _shutdown_timeout=sh_timeout, _ssl_object=(AnsweredSSL if answered else SilentSSL)(wbio), _read_bio=rbio, _write_bio=wbio)
                 expire = S.bool("shutdown_timeout_first")
@@ -333,6 +333,10 @@ def shards(tier: str):
         for susp in (1, 2) if path in ("stapled", "serverapi", "tls-aclose") else (1,):
             out.append({"name": f"close/{path}/s{susp}", "scenario": "props.c14:close", "params": dict(path=path, Kmax=8 if quick else 12, susp=susp), "budget": B, "cost": 100, "per_path_timeout": 30})
         # two cancellations (the second one lands while the first is being handled)
+        if path == "tls-aclose":
+            for ans in (False, True):
+                out.append({"name": f"close2/{path}/{'answered' if ans else 'silent'}", "scenario": "props.c14:close", "params": dict(path=path, Kmax=6 if quick else 10, susp=2, two_cancels=True, peer_answered=ans), "budget": B, "cost": 300, "per_path_timeout": 30})
+            continue
         out.append({"name": f"close2/{path}", "scenario": "props.c14:close", "params": dict(path=path, Kmax=6 if quick else 10, susp=2, two_cancels=True), "budget": B, "cost": 300, "per_path_timeout": 30})
     for path in ("serverapi", "aclient"):
         # a concurrent sender holds the send lock (peer not reading) when the close starts
